@@ -166,6 +166,13 @@ def gen_request(seed, p_defer=0.35, p_stream=0.35):
         return schema, stream_doc(rng), {}, rng
     if seed % 11 == 5:
         return schema, shared_fragment_stream_doc(rng), {}, rng
+    if seed % 11 == 4:
+        # mutations: root fields run one after another, the deferred / streamed parts of each belong to one payload stream
+        g = DocGen(schema, rng, ops=('mutation',), max_depth=3, p_defer=0.5, p_stream=0.5)
+        if rng.random() < 0.3:
+            g.op_dirs = ' @experimental_disableErrorPropagation'
+        src = g.gen('mutation')
+        return schema, src, g.variables(), rng
     if seed % 11 == 8:
         # a generated valid schema (G-schema) with the experimental directives added, instead of the fixed one
         gs = generated_inc_schema((seed * 7919) % 4000)
@@ -231,10 +238,10 @@ def judge_merge(ctx, asm, ref, ref_noprop, noprop, case, src):
 
 
 def one_run(ctx, schema, doc, src, variables, value_fn, ref, ref_noprop, noprop, seed, p_async, policy, early, protocol, merge, base_case, nesting,
-            p_iter=0.35):
+            p_iter=0.35, tof=False):
     case = {**base_case, "schedule_seed": seed, "p_async": p_async, "policy": policy, "early": early}
     run, sched, hz, obs = run_incremental(schema, doc, variables, value_fn, seed, p_async=p_async, policy=policy, early=early, p_iter=p_iter,
-                                          source_burst=[1, 1, 1, 3, 8][seed % 5])
+                                          source_burst=[1, 1, 1, 3, 8][seed % 5], tof=tof)
     try:
         run.quiesce()
         ctx.count("runs")
@@ -293,8 +300,19 @@ def one_run(ctx, schema, doc, src, variables, value_fn, ref, ref_noprop, noprop,
         run.close()
 
 
+def is_type_of_variant(schema, seed):
+    """For a share of the requests on the fixed schema: the same schema with is_type_of functions on every object type; the
+    run then hides __typename from the values and passes no type resolver (see run_incremental(tof=True))."""
+    if seed % 13 == 3 and schema is rich_inc():
+        from ..gen.schemas import rich_inc_is_type_of
+        from ..mon import aharness
+        return rich_inc_is_type_of(aharness.is_type_of_factory), True
+    return schema, False
+
+
 def check_request(ctx, seed, k, protocol=False, merge=True):
     schema, src, variables, rng = gen_request(seed)
+    schema, tof = is_type_of_variant(schema, seed)
     try:
         doc = parse(src)
     except GraphQLError:
@@ -302,6 +320,10 @@ def check_request(ctx, seed, k, protocol=False, merge=True):
     if validate(schema, doc):
         ctx.count("rejected_by_validate")
         return
+    if tof:
+        ctx.count("requests_resolved_through_is_type_of")
+    if src.startswith('mutation'):
+        ctx.count("mutation_requests")
     fault = [0.0, 0.1, 0.25][seed % 3]
     value_fn = make_value(schema, seed, fault)
     if seed % 7 == 6:
@@ -319,7 +341,7 @@ def check_request(ctx, seed, k, protocol=False, merge=True):
     for j in range(n):
         ctx.case()
         one_run(ctx, schema, doc, src, variables, value_fn, ref, ref_noprop, noprop, seed * 100 + j, [0.0, 0.3, 0.7, 1.0, 0.7, 0.5][j % 6],
-                ['random', 'fifo', 'lifo', 'slow-source', 'slow-consumer', 'phases', 'burst'][(j + seed) % 7], bool(j % 2), protocol, merge, base_case, nesting, p_iter=0.9 if seed % 11 == 6 else 0.35)
+                ['random', 'fifo', 'lifo', 'slow-source', 'slow-consumer', 'phases', 'burst'][(j + seed) % 7], bool(j % 2), protocol, merge, base_case, nesting, p_iter=0.9 if seed % 11 == 6 else 0.35, tof=tof)
     if k % 199 == 0:
         ctx.sample({"source": src[:500], "variables": variables, "fault_rate": fault})
 
